@@ -420,6 +420,8 @@ def gen_degenerate_cases(rng, n_bases):
 def run(ctx):
     rep, rng = ctx.rep, ctx.rng
     thorough = ctx.thorough
+    # what the OpenMP loop of the correlation kernel of this build shares between its threads
+    core.check_omp_sharing(ctx, "correlation_openmp", None, ["C18_schedule_independent", "C18_cell_local"])
     mk, ok_ = check_kernel(ctx, 4000 if thorough else 480)
     rep.lap("kernel")
     mw, ow = check_wrapper(ctx, gen_wrapper_cases(rng, 2500 if thorough else 260), "wrapper")
